@@ -10,15 +10,20 @@ below are therefore re-checked against what the code says now.
 Abstract: base64 is a `Codec` with the law `dec (enc b) = some b` and a line-safe encoding
 (`Codec.Lawful`); all theorems hold for every lawful codec.
 
-Proved for all inputs: `field_inverse_index`, `field_inverse_idb_partial` (decidable table facts over
-the regenerated tables), `index_read_write`, `index_write_read` (any list of well-formed packages),
-the generic `parseIndex_render` for *any* table satisfying `tableOK`.  Installed db: the table facts and
-the concrete negation witnesses; the whole-file theorems for the installed db, the file-record codec,
-passwd and group are not machine-checked yet — they are exercised by `corr:formats` only.
+Proved for all inputs: `field_inverse_index`, `field_inverse_idb_partial`, `field_inverse_idb_table`,
+`field_inverse_idb_files` (decidable table facts over the regenerated tables), `index_read_write`,
+`index_write_read` (any list of well-formed packages), the generic `parseIndex_render` /
+`parseInstalled_render` for *any* table pair satisfying `tableOK` / `idbTableOK` + `fileCasesOK`;
+`idb_read_write` (whole installed db: package fields and file records), `idb_files_read_write`,
+`sortTarHeaders_parent_adjacent`; `passwd_roundtrip`, `group_roundtrip_partial` (struct → bytes → struct)
+and `passwd_roundtrip_bytes`, `group_roundtrip_bytes` (canonical bytes → struct → bytes).  The full
+statements that the unchanged code violates are kept as `def … : Prop` with a proved negation
+(`group_roundtrip`, `passwd_roundtrip_unpadded`, `idb_read_write_full`, `idb_write_read`).
 -/
 import Apko.Proofs.Lemmas.FormatsIndex
 import Apko.Proofs.Lemmas.FormatsPasswd
 import Apko.Proofs.Lemmas.FormatsIdbSample
+import Apko.Proofs.Lemmas.FormatsCodec
 
 namespace Apko.C16
 open Apko Apko.Formats
@@ -340,5 +345,43 @@ theorem idb_read_write_full_fails_files :
     sampleFiles.map fileProj ≠ sampleFiles ∧
     (sampleFiles.map fileProj).map (fun f => (f.name, f.isDir, f.uid, f.gid)) =
       sampleFiles.map (fun f => (f.name, f.isDir, f.uid, f.gid)) := by decide
+
+/-- `Codec.Lawful` is satisfiable on all texts, so the theorems above are not vacuous -/
+theorem lawful_codec_exists : ∃ c : Codec, c.Lawful := ⟨escCodec, escCodec_lawful⟩
+
+/-- `idb_write_read` in the form proved for the index (reading a written file and writing the result
+again reproduces the bytes) … -/
+def idb_write_read : Prop :=
+  ∀ (c : Codec), c.Lawful → ∀ (ips : List IPkg) (t : Text), renderInstalledAll c idbRows ips = .ok t →
+    (∀ ip ∈ ips, WFIPkg ip = true) → linesFit defaultTokenMax (rawLines t) = true →
+    ∃ qs, parseInstalled c idbCases idbGuarded t = .ok qs ∧ renderInstalledAll c idbRows qs = .ok t
+
+def minimalIPkg : IPkg := ⟨{ name := ['a'] }, []⟩
+
+theorem render_noFiles (c : Codec) (p : Pkg) :
+    renderInstalledAll c idbRows [⟨p, []⟩] = .ok (unlines (recLines c idbRows p ++ [[]])) := by
+  simp [renderInstalledAll, renderInstalled, sortHeaders_nil, filesLines, Res.bind]
+
+set_option maxRecDepth 1000000 in
+/-- … is false for every package, because of the `i:` line (F16a-idb: `i:[]` reads back as `["[]"]` and
+is written again as `i:[[]]`): the smallest witness -/
+theorem idb_write_read_fails : ¬ idb_write_read := by
+  intro h
+  obtain ⟨qs, h1, h2⟩ := h escCodec escCodec_lawful [minimalIPkg] _ (render_noFiles escCodec _) (by decide) (by decide)
+  rw [idb_read_write escCodec escCodec_lawful [minimalIPkg] _ (render_noFiles escCodec _) (by decide) (by decide)] at h1
+  simp only [Res.ok.injEq] at h1
+  subst h1
+  simp only [List.map_cons, List.map_nil, readBack, minimalIPkg, sortHeaders_nil, Option.getD_some, render_noFiles,
+    Res.ok.injEq] at h2
+  revert h2
+  decide
+
+theorem idb_read_write_full_fails : ¬ idb_read_write_full := by
+  intro h
+  have h1 := h escCodec escCodec_lawful [minimalIPkg] _ (render_noFiles escCodec _) (by decide) (by decide)
+  rw [idb_read_write escCodec escCodec_lawful [minimalIPkg] _ (render_noFiles escCodec _) (by decide) (by decide)] at h1
+  simp only [Res.ok.injEq, List.map_cons, List.map_nil, readBack, minimalIPkg, sortHeaders_nil, Option.getD_some] at h1
+  revert h1
+  decide
 
 end Apko.C16
